@@ -386,6 +386,8 @@ class SSeq(SVal):
 def Len(s):
     if isinstance(s, ZSeq):
         return s.length()
+    if not isinstance(s, SSeq) and hasattr(s, "length") and (hasattr(s, "items") or hasattr(s, "seqs")):
+        return s.length
     if isinstance(s, SSeq):
         return SInt(s.len_e()) if not isinstance(s.length, int) else s.length
     return len(s)
